@@ -70,6 +70,12 @@ func loadSpecDB() (*SpecDB, error) {
 			for k, g := range cf.Ghosts {
 				prev.Ghosts[k] = g
 			}
+			for k, u := range cf.UFuncs {
+				if prev.UFuncs == nil {
+					prev.UFuncs = map[string]Sort{}
+				}
+				prev.UFuncs[k] = u
+			}
 			raw := cf.Raw
 			cf = prev
 			cf.Raw = raw
